@@ -533,6 +533,45 @@ def exhaustive_cases(tier):
                 out.append(single_rxn_case(subs, prods, labels, ident[: ns - 1]))
             out.append(single_rxn_case(subs, prods, labels, ident + [0]))
             out.append(single_rxn_case(subs, prods, labels, ident[:-1] + [N]))
+    out += wide_cases(tier)
+    return out
+
+
+def wide_cases(tier):
+    """three or more entries on a reaction side (three-way merges / splits, coefficients 2 and 3 mixed
+    with other compounds, e.g. A -> 2 B + C): every permutation map for N <= 3 padded positions, a fixed
+    spread of permutations (incl. rotations and the reversal) for larger N; seed-independent"""
+    out = []
+    sides3 = [  # (compound names in occurrence order, labels)
+        (["X0", "X1", "X2"], {"X0": 1, "X1": 1, "X2": 1}),
+        (["X0", "X1", "X2"], {"X0": 1, "X1": 0, "X2": 1}),
+        (["X0", "X1", "X2"], {"X0": 2, "X1": 1, "X2": 1}),
+        (["X0", "X1", "X2"], {"X0": 1, "X1": 1, "X2": 2}),
+        (["X0", "X0", "X1"], {"X0": 1, "X1": 1}),
+        (["X0", "X1", "X1"], {"X0": 1, "X1": 2}),
+        (["X0", "X0", "X0"], {"X0": 1}),
+        (["X0", "X1", "X2", "X3"], {"X0": 1, "X1": 1, "X2": 1, "X3": 1}),
+    ]
+    others = [([], {}), (["Y0"], {"Y0": 1}), (["Y0"], {"Y0": 3}), (["Y0", "Y1"], {"Y0": 2, "Y1": 1}),
+              (["Y0", "Y1", "Y2"], {"Y0": 1, "Y1": 1, "Y2": 1})]
+    for big, bl in sides3:
+        for oth, ol in others:
+            for wide_is_product in (True, False):
+                subs, prods = (oth, big) if wide_is_product else (big, oth)
+                if len(set(subs)) < len(subs):
+                    continue  # a repeated labelled substrate is finding class F-C05-1: covered by the random stratum
+                labels = {**bl, **ol}
+                N = max(sum(labels[c] for c in subs), sum(labels[c] for c in prods))
+                if N == 0 or N > 5:
+                    continue
+                perms = list(it.permutations(range(N)))
+                if N > 3 and tier != "thorough":
+                    ident = list(range(N))
+                    perms = [tuple(ident), tuple(reversed(ident)), tuple(ident[1:] + ident[:1]),
+                             tuple(ident[-1:] + ident[:-1]), tuple(ident[2:] + ident[:2]),
+                             tuple([ident[1], ident[0]] + ident[2:])]
+                for m in perms:
+                    out.append(single_rxn_case(subs, prods, labels, m))
     return out
 
 
@@ -540,7 +579,7 @@ def random_case(rng):
     """random small network: labelled / unlabelled compounds, uni- and bimolecular reactions incl.
     homodimers and compounds on both sides, influx / efflux, derived quantities on totals,
     unmapped bystander reactions, random maps (permutations, arbitrary, short, long, out of range)"""
-    ncp = rng.randint(2, 4)
+    ncp = rng.randint(2, 5)
     cpds = [f"X{i}" for i in range(ncp)]
     labels = {c: rng.choice([None, 0, 1, 1, 2, 2, 3]) for c in cpds}
     if all(v is None for v in labels.values()):
@@ -564,8 +603,8 @@ def random_case(rng):
             args = ["k", c, extra]
             rxns.append([name, {"args": args, "e": prod_expr(3), "st": [[c, -1]]}])
             continue
-        nsub = rng.choice([0, 1, 1, 2, 2])
-        nprod = rng.choice([0, 1, 1, 2])
+        nsub = rng.choice([0, 1, 1, 2, 2, 3])
+        nprod = rng.choice([0, 1, 1, 2, 3, 4])
         if nsub == 0 and nprod == 0:
             nprod = 1
         if rng.random() < 0.25 and nsub == 2:
@@ -578,6 +617,10 @@ def random_case(rng):
         else:
             pool_p = cpds  # compound on both sides
         prods = [rng.choice(pool_p) for _ in range(nprod)]
+        while sum(labels[c] or 0 for c in subs) > 5:  # keep 2^(substrate labels) reactions tractable
+            subs = subs[:-1]
+        while sum(labels[c] or 0 for c in prods) > 6:
+            prods = prods[:-1]
         st = {}
         for c in subs:
             st[c] = st.get(c, 0) - 1
